@@ -320,6 +320,13 @@ def make_run_passes(which):
                            'extra': sorted(set(used) - enabled),
                            'signature': 'last hierarchical pass differs from '
                            'the enabled set'})
+            # C02: the pass whose fixed point is returned has every enabled
+            # mutator (so "fixed point of the last pass" is "of all of them")
+            p.oblige('C02/get_passes/last-pass-contains-every-enabled-mutator',
+                     ok and enabled <= set(used),
+                     info={'missing': sorted(enabled - set(used)),
+                           'signature': 'an enabled mutator is not part of '
+                           'the final fixed-point pass'})
             p.oblige(f'{N}/last-pass-mutators-are-default-constructed',
                      all(not x.attrs for x in last) if ok else False)
             everything = set()
